@@ -183,6 +183,12 @@ def table_size(m):
     return len(reach), len({a for s in reach for a in m["actions"][s]})
 
 
+def view_size(m, pres):
+    """(n_states, n_actions) of the learner's tables for MDP m presented as pres"""
+    ex = pres.get("explicit_lists")
+    return (len(ex["states"]) if ex else len(gen_mdp.reachable(m))), m["nA"]
+
+
 def gen_slow_mdp(rng):
     """slow-decay family: a tiny proper MDP whose non-absorbing states form a zero-reward cycle
     (or self-loop) left only with small probability, the only positive reward sitting on the exit
@@ -246,22 +252,31 @@ def gen_case(rng, tier):
         # MDP object or on a second MDP with a different discount rate (and its own rewards / rmax); each
         # result is judged with its own MDP.  The second MDP may have a different table size (a stale
         # _self_transition_mat used to raise IndexError there; fixed in /repo by 235fcf2).
+        # when the FIRST result's policy (and Q dict) are read: right away, or only AFTER the second
+        # train_on (all states / every other state) -- an earlier result must stay valid, i.e. greedy for
+        # ITS OWN returned Q-values, whatever the learner object does later
+        late = rng.choice(["after", "after", "half-after", "before"])
         if rng.random() < .25:
-            case["then"] = {"same_mdp_object": True}
+            # the very same MDP object again, with another seed (another history, other Q-values)
+            case["then"] = {"same_mdp_object": True, "seed": rng.randrange(2 ** 31), "first_policy_queried": late}
             return case
         g2 = rng.choice([g for g in GAMMAS if g != gamma])
-        m2 = None
-        for _ in range(200):
-            cand = gen_main_mdp(rng, tier, g2)
-            if REUSE_ANY_SIZE or table_size(cand) == table_size(m):
-                m2 = cand
+        same_size = rng.random() < .6 or not REUSE_ANY_SIZE   # same table shape: buffers could be recycled
+        then = None
+        for _ in range(300):
+            m2 = gen_main_mdp(rng, tier, g2)
+            pres = presentation(rng, m2)
+            if not same_size or view_size(m2, pres) == view_size(m, case):
+                then = dict(pres, mdp=m2)
                 break
-        if m2 is None:
-            # same structure, other discount, rewards doubled
+        if then is None:
+            # same structure and presentation, other discount, rewards doubled
             m2 = dict(m, gamma=g2, reward={k: str(2 * F(v)) for k, v in m["reward"].items()})
-        then = {"mdp": m2}
-        then.update(presentation(rng, m2))
-        then["rmax"] = str(rmax_of(m2, then["explicit_lists"]))
+            then = {"mdp": m2}
+            then.update({k: case[k] for k in ("action_labels", "action_perm", "state_labels", "actions_container",
+                                              "explicit_lists", "ints_as_int")})
+        then["rmax"] = str(rmax_of(then["mdp"], then["explicit_lists"]))
+        then["first_policy_queried"] = late
         case["then"] = then
     return case
 
@@ -410,6 +425,7 @@ def run(ctx):
                 "slow_decay_family": 0, "slow_decay_family_closed_known_cycle_decayed": 0,
                 "mirror_skipped_slow_decay_family": 0,
                 "policy_queries_at_states_outside_q": 0, "default_listener_reruns": 0,
+                "first_result_read_after_second_training": 0, "reused_on_different_mdp_of_same_table_size": 0,
                 "reused_same_mdp_object": 0, "state_list_order_differs_from_id_order": 0,
                 "explicit_lists": 0, "explicit_list_with_unreachable_state": 0, "tuple_labels": 0, "falsy_labels": 0,
                 "seed_0": 0, "seed_None": 0, "episodes_0": 0, "gamma_0": 0, "rmax_0": 0, "ints_passed_as_int": 0,
@@ -453,6 +469,14 @@ def run(ctx):
         if not res.get("pi_same_on_second_query", True):
             ctx.violation(("C17:" if tag == "first" else "C17:reused-object:") + "policy-object-answers-differently-on-second-query",
                           {"case": case, "training": tag, "impl": res}, found=True)
+        if tag == "first" and "Q_late" in res:
+            counters["first_result_read_after_second_training"] += 1
+            if res["Q_late"] != res["Q"]:
+                ctx.violation("C17:earlier-result-q-values-changed-after-a-later-train_on",
+                              {"case": case, "impl": res}, found=True)
+            if not res.get("pi_early_equals_late", True):
+                ctx.violation("C17:earlier-result-policy-changed-after-a-later-train_on",
+                              {"case": case, "impl": res}, found=True)
         for row in res.get("pi_outside", []):
             # _create_policy's KeyError branch: a state outside the Q dict gets the uniform policy over its actions
             counters["policy_queries_at_states_outside_q"] += 1
@@ -503,6 +527,7 @@ def run(ctx):
         if tag == "reused":
             counters["reused_object_second_trainings"] += 1
             counters["reused_with_different_table_size"] += int((nS, nA) != first_size.get(id(case)))
+            counters["reused_on_different_mdp_of_same_table_size"] += int((nS, nA) == first_size.get(id(case)) and not view.get("same_mdp_object"))
         if view.get("family") == "slow-decay":
             counters["slow_decay_family"] += 1
             live = [s for s in range(nS) if not absf[s]]
@@ -565,8 +590,9 @@ def run(ctx):
                 "resampled until some initial state is non-absorbing.  PRESENTATION (all families, results mapped back by label): action labels ints / renamed ints / strings incl. '' / tuples incl. () / bools, "
                 "actions(s) listing them sorted / in one shuffled order / in a different order per state as tuple / list / frozenset; state labels ints / renamed ints / strings / tuples "
                 "(sorted state_list order differs from the id order); explicit shuffled _state_list/_action_list (25%%) or inferred; integral gamma / rmax passed as int (50%%).  "
-                "REUSE (20%% of MAIN): the same RMAX object is trained again, on the very same MDP object (1/4) or on a second MDP of any table size with a "
-                "different gamma and its own rewards/rmax (learner.rmax set to it); both trainings are judged, each with its own MDP.  15%% of MAIN also run a second fresh RMAX object with the default listener on the already-used MDP object "
+                "REUSE (20%% of MAIN): the same RMAX object is trained again, on the very same MDP object with another seed (1/4) or on a second MDP (60%% of them of the SAME table size, else any) with a "
+                "different gamma and its own rewards/rmax (learner.rmax / learner.seed set); both trainings are judged, each with its own MDP; in 3/4 of these the FIRST result's policy and Q dict are "
+                "read only AFTER the second train_on (all or every other state) and the first training is certified on that late reading (an earlier result must stay greedy for its own Q-values).  15%% of MAIN also run a second fresh RMAX object with the default listener on the already-used MDP object "
                 "(episode_rewards and Q must equal the recorded run).  SLOW-DECAY (about 8%%): 1-2 state zero-reward "
                 "cycle left with probability 1/8 or 1/16 to an absorbing state (the only positive reward on the exit), gamma in {63/64,127/128,255/256,1023/1024}, m in {1,2}, tolerance 1e-5: "
                 "when the first m samples of all cycle pairs stay in the cycle, value iteration needs thousands of sweeps; for this family ONLY the certificate (valid steps, tallies, upper bound, "
